@@ -8,6 +8,7 @@ import (
 	"path/filepath"
 	"sort"
 	"strings"
+	"syscall"
 
 	"github.com/martian-lang/martian/martian/verifsim/vos"
 )
@@ -101,10 +102,41 @@ func vdrCase(c *Ctx, focus string) {
 		cfg.Crashes = []CrashSpec{{Inc: 1, AtGate: 40 + c.Plan.Draw(600), Kind: []string{"kill", "sigterm", "powerloss"}[c.Plan.Draw(3)]}}
 		cfg.Restarts = 1
 	}
-	r := c.RunOnce(cfg, nil)
+	// removal faults: some paths cannot be removed (a file still held open on NFS
+	// makes the directory "not empty", a foreign owner makes it EACCES); every
+	// attempt of the storage code on such a path fails.  What could not be removed
+	// may stay, but must not be reported as removed.
+	rmFaults := focus == "C14" && !interrupted && c.Plan.Draw(6) == 0
+	rmSalt := fmt.Sprintf("rm%d", c.Plan.Draw(1<<20))
+	var setup func(r *Run)
+	if rmFaults {
+		setup = func(r *Run) {
+			r.PreStart = func() {
+				vos.W.Before = func(ev *vos.Event, data []byte) error {
+					if ev.Site == "storage.go" && (ev.Op == "removeall" || ev.Op == "remove") && ev.PKind == "mrp" &&
+						hash64(rmSalt, ev.Path)%3 == 0 {
+						if _, err := os.Lstat(path.Join(r.Root, ev.Path)); err != nil {
+							return nil // nothing there: removing nothing succeeds
+						}
+						r.Faults["removal-fails"]++
+						e := syscall.ENOTEMPTY
+						if hash64(rmSalt, ev.Path, "kind")%2 == 0 {
+							e = syscall.EACCES
+						}
+						return &os.PathError{Op: "unlinkat", Path: path.Join(r.Root, ev.Path), Err: e}
+					}
+					return nil
+				}
+			}
+		}
+	}
+	r := c.RunOnce(cfg, setup)
 	c.Res.Shape = progShape(prog)
 	c.Res.Class = r.Class()
 	c.Res.Probes["mode:"+mode]++
+	if rmFaults {
+		c.Res.Probes["runs-with-removal-faults"]++
+	}
 	if len(r.Panics) > 0 {
 		c.Res.Class = "mrp-panicked"
 		c.Res.Notes = append(c.Res.Notes, "mrp panic: "+firstLines(r.Panics[0], 3))
@@ -145,6 +177,22 @@ func vdrCase(c *Ctx, focus string) {
 	c.Res.Probes["files-written"] += len(r.Files)
 	add := func(prop, oracle, msg string) {
 		c.Res.Violations = append(c.Res.Violations, Violation{prop, oracle, "[vdrmode=" + mode + "] " + msg, r.Steps})
+	}
+	// paths whose removal was refused (removal faults): they and what lies below
+	// them may survive
+	var refused []string
+	for _, e := range vos.W.Events {
+		if e.Site == "storage.go" && (e.Op == "removeall" || e.Op == "remove") && e.Err != "" {
+			refused = append(refused, path.Join(r.Root, e.Path))
+		}
+	}
+	undeletable := func(abs string) bool {
+		for _, q := range refused {
+			if abs == q || strings.HasPrefix(abs, q+"/") || strings.HasPrefix(q, abs+"/") {
+				return true
+			}
+		}
+		return false
 	}
 	// ---- C04 (i): every job found its argument files ----
 	for _, j := range r.Jobs {
@@ -230,7 +278,7 @@ func vdrCase(c *Ctx, focus string) {
 		}
 		if info.IsDir() && info.Name() == "tmp" && p != path.Join(r.PsDir, "tmp") {
 			rel := strings.TrimPrefix(p, r.PsDir+"/")
-			if strings.Contains(rel, "/fork") && ranIn[path.Dir(p)] {
+			if strings.Contains(rel, "/fork") && ranIn[path.Dir(p)] && !undeletable(p) {
 				add("C14", "tmp-dir-left", "temporary directory survives completion: "+rel)
 			}
 		}
@@ -249,14 +297,14 @@ func vdrCase(c *Ctx, focus string) {
 		}
 		rel := strings.TrimPrefix(p, r.PsDir+"/")
 		if rec.Tmp {
-			if exists(p) {
+			if exists(p) && !undeletable(p) {
 				add("C14", "tmp-file-left", "scratch file survives completion: "+rel)
 			}
 			continue
 		}
 		if in.Stage.Split && rec.Job.Phase == "main" {
 			c.Res.Probes["chunk-files-of-split-stage"]++
-			if exists(p) {
+			if exists(p) && !undeletable(p) {
 				add("C14", "chunk-file-left", "chunk-level file of a splitting stage survives completion: "+rel)
 			}
 			continue
@@ -274,7 +322,7 @@ func vdrCase(c *Ctx, focus string) {
 		}
 		keep := named[p] || retained[p] || (rec.Logical != "" && (named[rec.Logical] || retained[rec.Logical])) ||
 			(rec.InDir != "" && (named[rec.InDir] || retained[rec.InDir]))
-		if !keep && exists(p) {
+		if !keep && exists(p) && !undeletable(p) {
 			add("C14", "volatile-file-left", fmt.Sprintf("file of volatile stage %s survives completion although neither a top-level output nor a retain names it: %s", in.Index, rel))
 		}
 	}
@@ -322,12 +370,20 @@ func vdrCase(c *Ctx, focus string) {
 		var knownBytes uint64
 		var knownFiles uint
 		for _, kp := range rep.Paths {
-			if seen[kp] {
+			if seen[kp] && undeletable(kp) {
+				add("C14", "refused-removal-reported-as-removed", fmt.Sprintf("%s lists %s, whose removal failed, once per attempt", strings.TrimPrefix(p, r.PsDir+"/"), strings.TrimPrefix(kp, r.PsDir+"/")))
+			} else if seen[kp] {
 				add("C14", "path-reported-twice", fmt.Sprintf("%s lists %s twice", strings.TrimPrefix(p, r.PsDir+"/"), kp))
 			}
 			seen[kp] = true
 			if exists(kp) {
-				add("C14", "reported-path-still-exists", fmt.Sprintf("%s lists %s which still exists", strings.TrimPrefix(p, r.PsDir+"/"), strings.TrimPrefix(kp, r.PsDir+"/")))
+				if undeletable(kp) {
+					// the removal was attempted and refused (removal fault); the
+					// report was written as if it had succeeded
+					add("C14", "refused-removal-reported-as-removed", fmt.Sprintf("%s lists %s, whose removal failed (the error is under \"errors\"), as removed, and counts it", strings.TrimPrefix(p, r.PsDir+"/"), strings.TrimPrefix(kp, r.PsDir+"/")))
+				} else {
+					add("C14", "reported-path-still-exists", fmt.Sprintf("%s lists %s which still exists", strings.TrimPrefix(p, r.PsDir+"/"), strings.TrimPrefix(kp, r.PsDir+"/")))
+				}
 			}
 			for fp, rec := range r.Files {
 				if fp == kp || strings.HasPrefix(fp, kp+"/") {
@@ -386,7 +442,13 @@ func vdrCase(c *Ctx, focus string) {
 					strings.TrimPrefix(p, r.PsDir+"/"), rep.Count, rep.Size, vdrFiles, vdrBytes))
 			}
 		}
-		if !interrupted && path.Dir(p) != r.PsDir {
+		refusedHere := false
+		for _, q := range refused {
+			if strings.HasPrefix(q, path.Dir(p)+"/") {
+				refusedHere = true
+			}
+		}
+		if !interrupted && path.Dir(p) != r.PsDir && !refusedHere {
 			// upper bound, exact with respect to the file system: everything the
 			// storage code removed below this fork, measured by the disk seam just
 			// before each removal (files and the directories holding them)
